@@ -1,8 +1,161 @@
-(** C19 — property theorems only. *)
-From V Require Import Base.Util C20.Model C19.Model C19.Spec C19.Proofs.
+(** C19 — property theorems only.  Each is closed by [exact] of a lemma of Proofs*.v (or by
+    [vm_compute] on a witness for the refutations/examples) and followed by [Print Assumptions].
+    All are parametric in the two oracles (what the real parser / printer return). *)
+From V Require Import Base.Util C20.Model C19.Model C19.Spec C19.Proofs C19.Proofs2 C19.Proofs3
+  C19.Proofs4 C19.Proofs5 C19.Corr.
+From Coq Require Import Sorted.
 
-Theorem C19_dead_required : forall parse_o emit_o st t,
+(** 1. task ids: strictly increasing over any history, never 0 — hence never reused *)
+Theorem C19_ids_fresh : forall parse_o emit_o h,
+  StronglySorted N.lt (new_ids (run parse_o emit_o init_state h))
+  /\ Forall (fun t => (1 <= t)%N) (new_ids (run parse_o emit_o init_state h)).
+Proof. exact ids_fresh. Qed.
+Print Assumptions C19_ids_fresh.
+
+(** 2. calls on an id that is not live give the error result, change nothing else, never trap —
+       whatever source they carry (even one the parser would panic on) *)
+Theorem C19_dead_id_is_error : forall parse_o emit_o st t,
   find_task t (tasks st) = None ->
-  step parse_o emit_o st (Required t) = (Some (set_result st (VText TASK_NOT_FOUND)), RBool false).
-Proof. exact dead_required. Qed.
-Print Assumptions C19_dead_required.
+  step parse_o emit_o st (Required t) = (Some (set_result st (VText TASK_NOT_FOUND)), RBool false)
+  /\ (forall f src, step parse_o emit_o st (Load t f src) = (Some (set_result st (VText TASK_NOT_FOUND)), RBool false))
+  /\ step parse_o emit_o st (Emit t) = (Some (set_result st (VText TASK_NOT_FOUND)), RBool false)
+  /\ step parse_o emit_o st (Free t) = (Some st, RUnit).
+Proof. exact dead_calls. Qed.
+Print Assumptions C19_dead_id_is_error.
+
+(** ... and "not live" covers: id 0, ids never issued, and ids freed at any earlier point *)
+Theorem C19_never_issued_or_zero_is_dead : forall parse_o emit_o h st t,
+  exec parse_o emit_o init_state h = Some st ->
+  (t = 0%N \/ (next_id st <= t)%N) -> find_task t (tasks st) = None.
+Proof.
+  intros parse_o emit_o h st t He [->|Hle];
+    destruct (wf_exec parse_o emit_o h _ _ wf_init He) as [Hwf _].
+  - exact (zero_dead st Hwf).
+  - exact (never_issued_dead st t Hwf Hle).
+Qed.
+Print Assumptions C19_never_issued_or_zero_is_dead.
+
+Theorem C19_freed_stays_dead : forall parse_o emit_o h1 h2 t st1 st2,
+  exec parse_o emit_o init_state h1 = Some st1 -> (t < next_id st1)%N ->
+  exec parse_o emit_o st1 (Free t :: h2) = Some st2 -> find_task t (tasks st2) = None.
+Proof. exact freed_stays_dead. Qed.
+Print Assumptions C19_freed_stays_dead.
+
+(** 3. the required-files answer of a task = the import targets of its loaded files that are not
+       loaded, as a set of paths, without duplicates *)
+Theorem C19_required_exact : forall parse_o x,
+  (forall p, In p (required_of parse_o x) ->
+     exists from src imp, In (from, src) (t_files x) /\ In imp (imports_of parse_o src)
+                          /\ p = resolve_s from imp /\ contains_file p (t_files x) = false)
+  /\ (forall from src imp, In (from, src) (t_files x) -> In imp (imports_of parse_o src) ->
+        contains_file (resolve_s from imp) (t_files x) = false ->
+        mem_path (resolve_s from imp) (required_of parse_o x) = true)
+  /\ nodup_path (required_of parse_o x) = true.
+Proof.
+  intros parse_o x. split; [exact (required_sound parse_o x)|].
+  split; [exact (required_complete parse_o x)|exact (required_nodup parse_o x)].
+Qed.
+Print Assumptions C19_required_exact.
+
+(** 4. every history passes the executable specification written from the property text
+       ([Spec.spec_check], the same function [Corr.holds] evaluates on the implementation's
+       responses): with oracles that never panic, outright; in general, up to traps that are an
+       oracle's own panic on the task's own files (the known-finding class) *)
+Theorem C19_model_meets_spec : forall parse_o emit_o h,
+  total parse_o emit_o ->
+  spec_check parse_o emit_o false s_init h (run parse_o emit_o init_state h) = true.
+Proof. exact model_meets_spec. Qed.
+Print Assumptions C19_model_meets_spec.
+
+Theorem C19_model_meets_spec_modulo_oracle_traps : forall parse_o emit_o h,
+  spec_check parse_o emit_o true s_init h (run parse_o emit_o init_state h) = true.
+Proof. exact model_meets_spec_tol. Qed.
+Print Assumptions C19_model_meets_spec_modulo_oracle_traps.
+
+(** 5. isolation (protocol level of loader-core): in any history over any number of tasks, the
+       (call, response) pairs about task [t] are what a fresh single-task instance answers *)
+Theorem C19_isolation : forall parse_o emit_o t h, (0 < t)%N ->
+  let rs := api_run parse_o emit_o init_state h in
+  api_run parse_o emit_o init_state (map fst (proj t h rs)) = map snd (proj t h rs).
+Proof. intros parse_o emit_o t h Ht. exact (isolation parse_o emit_o t Ht h). Qed.
+Print Assumptions C19_isolation.
+
+(** 6. emit on any reachable task = emit of a fresh instance given the same files *)
+Theorem C19_emit_equals_fresh : forall parse_o emit_o h st t x,
+  exec parse_o emit_o init_state h = Some st -> find_task t (tasks st) = Some x ->
+  api_run parse_o emit_o init_state (fresh_acalls x ++ [AEmit 1])
+  = AId 1 :: repeat AOk (length (tl (t_files x))) ++ [snd (api_step parse_o emit_o st (AEmit t))].
+Proof. exact emit_equals_fresh. Qed.
+Print Assumptions C19_emit_equals_fresh.
+
+(** * Refutations: behaviour of the current code that violates the property.  The witnesses are
+      cases exactly as the correspondence run records them on the real loader (oracle values
+      included); the model agrees with the implementation on them and the property fails. *)
+
+Definition w_file : str := s "/p/a.graphql".
+Definition w_missing : str := s "query A { a ...Missing }".
+Definition w_emit_trap : case :=
+  mkCase [(w_missing, POk [])] [(w_file, [(w_file, w_missing)], ETrap)]
+         [Initiate w_file w_missing; Emit 1] [RId 1; Trap].
+
+Theorem C19_emit_trap_refuted : agree w_emit_trap = true /\ holds w_emit_trap = false.
+Proof. vm_compute. split; reflexivity. Qed.
+Print Assumptions C19_emit_trap_refuted.
+
+Definition w_surrogate : str := s "query A { a(s: ""\uD800"") }".
+Definition w_plain : str := s "query A { a }".
+Definition w_parse_trap : case :=
+  mkCase [(w_plain, POk []); (w_surrogate, PTrap)] []
+         [Initiate w_file w_plain; Load 1 (s "/p/b.graphql") w_surrogate] [RId 1; Trap].
+Definition w_parse_trap0 : case :=
+  mkCase [(w_surrogate, PTrap)] [] [Initiate w_file w_surrogate] [Trap].
+
+Theorem C19_parse_trap_refuted :
+  (agree w_parse_trap = true /\ holds w_parse_trap = false)
+  /\ (agree w_parse_trap0 = true /\ holds w_parse_trap0 = false).
+Proof. vm_compute. repeat split; reflexivity. Qed.
+Print Assumptions C19_parse_trap_refuted.
+
+(** * Non-vacuity *)
+
+(** the guard [total] of theorem 4 is satisfiable, and by oracles under which tasks do things *)
+Definition ex_parse (src : str) : presult :=
+  if str_eqb src (s "A") then POk [s "./b.graphql"] else if str_eqb src (s "bad") then PErr (s "no") else POk [].
+Definition ex_emit (root : str) (fs : list (str * str)) : eresult :=
+  if contains_file (s "/p/b.graphql") fs then EOk (s "js:" ++ root) else EErr (s "File './b.graphql' not found.").
+
+Example ex_total : total ex_parse ex_emit.
+Proof.
+  split.
+  - intros src. unfold ex_parse. destruct (str_eqb src (s "A")); [discriminate|].
+    destruct (str_eqb src (s "bad")); discriminate.
+  - intros r fs. unfold ex_emit. destruct (contains_file (s "/p/b.graphql") fs); discriminate.
+Qed.
+
+(** two interleaved tasks, a freed id and a never-issued id: the projections of theorem 5 are
+    non-empty and differ between the tasks *)
+Definition ex_hist : list acall :=
+  [AInitiate (s "/p/a.graphql") (s "A"); AInitiate (s "/p/a.graphql") (s "A"); ARequired 1;
+   ALoad 2 (s "/p/b.graphql") (s "F"); AEmit 1; AEmit 2; AFree 1; ARequired 1; ARequired 7;
+   ALoad 2 (s "/p/c.graphql") (s "bad"); ARequired 2].
+
+Example ex_isolation_nontrivial :
+  let rs := api_run ex_parse ex_emit init_state ex_hist in
+  map snd (proj 1 ex_hist rs)
+  = [AId 1; AFilesR [s "/p/b.graphql"]; AErr (s "File './b.graphql' not found."); AOk; AErr TASK_NOT_FOUND]
+  /\ map snd (proj 2 ex_hist rs)
+  = [AId 1; AOk; AJs (s "js:/p/a.graphql"); AErr (s "no"); AFilesR []].
+Proof. vm_compute. split; reflexivity. Qed.
+
+(** why isolation is stated at the protocol level: a raw read after a SUCCESSFUL load on task 2
+    returns what the last storing call — about task 1 — left in RESULT *)
+Example ex_stale_read_crosses_tasks :
+  run ex_parse ex_emit init_state
+      [Initiate (s "/p/a.graphql") (s "A"); Initiate (s "/p/a.graphql") (s "F"); Required 1;
+       Load 2 (s "/p/b.graphql") (s "F"); ReadResult]
+  = [RId 1; RId 2; RBool true; RBool true; RFiles [s "/p/b.graphql"]].
+Proof. vm_compute. reflexivity. Qed.
+
+(** the guard of the [get_result] clause: before anything was stored, a read aborts *)
+Example ex_read_before_result_traps : forall parse_o emit_o, run parse_o emit_o init_state [ReadResult] = [Trap].
+Proof. reflexivity. Qed.
